@@ -167,6 +167,14 @@ type Violation struct {
 
 func (v *Violation) Error() string { return v.Class + ": " + v.Msg }
 
+// ClassOf returns the class of a violation (the empty string for another error).
+func ClassOf(err error) string {
+	if v, ok := err.(*Violation); ok {
+		return v.Class
+	}
+	return ""
+}
+
 // Violationf builds a Violation.
 func Violationf(class, format string, args ...interface{}) *Violation {
 	msg := fmt.Sprintf(format, args...)
